@@ -19,10 +19,10 @@ def prop(pid, **kw):
 
 
 prop('C01', units=['bk'], level='proof',
-     technique='Verus contracts on the extracted bookkeeping code (delta_for_tx vs five-arm step spec; ledger fold invariant)',
+     technique='Verus contracts on the extracted bookkeeping code: delta_for_tx vs the five-arm step specification spec_step_ok (for a sale with a denied part: reported gain + denied amount = plain gain); txs_to_delta_list: the reported deltas are the fold (chain) of that step from the opening status, and the rows of the ledger are exactly the input rows in order plus generated adjustment rows (embeds; a prefix on an error); constrained-decimal layer; Tx::try_from (defaults; reads back every row written by to_csvtx as the same transaction)',
      level_text='Deductive proof (Verus) over the extracted bookkeeping code: for all inputs delta_for_tx satisfies the average-cost step specification and txs_to_delta_list is the fold of that step; model E (exact arithmetic).',
      level_note='Assumes exact Decimal arithmetic, the shim contracts for rust_decimal/time/std, Verus+Z3; CSV parsing and rendering are outside.',
-     not_covered=['<=1e-9 rounding clause (model E)', 'CSV text -> CsvTx parsing', 'rendering of figures into table cells'],
+     not_covered=['<=1e-9 rounding clause (model E: exact arithmetic)', 'CSV text -> CsvTx parsing (csv crate, number and date syntax)', 'rendering of figures into table cells'],
      witnesses=[])
 
 BK_NOTE = ('Assumes exact Decimal arithmetic (model E), the shim contracts for rust_decimal/time/std collections, '
@@ -67,7 +67,7 @@ prop('C17', units=['costs', 'rnd', 'bk', 'ord'], level='proof',
      technique='Verus contracts on costs.rs: MaxSingleDayCosts sum invariant; calc_max_day_cost_per_sec row k = day maximum or carried closing value for every security; calc_yearly_max_cost_day = best row of the year (earliest on ties); the admissibility of its input (deltas_ok) is proved at the call site from the contracts of txs_to_delta_list, replace_global_security_splits_for_holders and run_acb_app_to_delta_models',
      level_text='Deductive proof (Verus) for all delta lists satisfying deltas_ok (per security in settlement order): every dated row, the carry-forward, the row total and the yearly best day are those of the statement, for any hash iteration order; and deltas_ok itself is proved for the list run_acb_app_to_render_model builds (lemma_concat_ledgers_deltas_ok over the per-ledger facts: own security, cost base on both sides or none, settlement order kept through split expansion and generated adjustments).',
      level_note=BK_NOTE + ' hole_date_keys (keys().map().collect()), hole_map_into_vec, hole_map_entries, hole_clone_deltas are assumed std paraphrases with arbitrary order. The opening-position and rate-loader preconditions of run_acb_app_to_render_model are those of the command-line layer (not verified).',
-     not_covered=['render_total_costs string assembly', 'Costs::sorted_years (rendering helper)', 'listing of ignored transactions as notes (strings)'],
+     not_covered=['render_total_costs string assembly', 'listing of ignored transactions as notes (strings)'],
      witnesses=['D1', 'D2b'])
 
 
@@ -89,10 +89,10 @@ prop('C06', units=['agg'], level='proof',
      witnesses=[])
 
 prop('C07', units=['drv', 'ord', 'bk'], level='proof',
-     technique='Verus: impl Ord/PartialOrd for Tx and CsvTx == (settlement date, read index); split_txs_by_security == order-preserving filter per security',
+     technique='Verus: impl Ord/PartialOrd for Tx and CsvTx == (settlement date, read index); split_txs_by_security == order-preserving filter per security; run_acb_app_to_delta_models: row k of the concatenated files gets read index k, the rows are sorted by (settlement date, read index), each security sees the stable filter of that list',
      level_text='Deductive proof (Verus) of the ordering key and of the stable per-security partition. Header handling, column permutation and read-index assignment live in csv-crate/string code and are not covered.',
      level_note=BK_NOTE + ' std slice::sort is assumed stable and correct w.r.t. cmp_spec; parse_tx_csv read indices are assumed.',
-     not_covered=['header case/padding/unknown columns (parse_tx_csv)', 'global_read_index accumulation in the async I/O driver'],
+     not_covered=['header case/padding/unknown columns and the per-file numbering inside parse_tx_csv (csv crate; assumed: row i of a file gets initial + i)'],
      witnesses=[])
 
 prop('C08', units=['drv', 'ord', 'agg', 'bk', 'rnd'], level='proof',
@@ -103,7 +103,7 @@ prop('C08', units=['drv', 'ord', 'agg', 'bk', 'rnd'], level='proof',
      witnesses=['D15'])
 
 prop('C09', units=['ord', 'costs', 'agg', 'bk', 'rnd'], level='proof',
-     technique='Verus with hash iteration modelled as an arbitrary permutation: expand(global splits) is a function of the input (unique id-sorted enumeration), yearly max day = earliest best day, aggregate sums order-independent, sorted key lists',
+     technique='Verus with hash iteration modelled as an arbitrary permutation: expand(global splits) is a function of the input (unique id-sorted enumeration), yearly max day = earliest best day, aggregate sums order-independent, sorted key lists (years of gains and cost tables), generated adjustment rows in affiliate-id order, securities visited and printed in name order',
      level_text='Deductive proof (Verus): each function that turns a hash container into ordered output satisfies a seed-free postcondition, so no result depends on iteration order. Byte-level output of tabled/csv and the render loop order are watched by witnesses only.',
      level_note=BK_NOTE + ' iteration order of std hash containers is unspecified in every assumed iterator contract.',
      not_covered=['bytes produced by tabled / csv writers', 'order of securities in run_acb_app_to_render_model (witness D2c)',
